@@ -173,11 +173,13 @@ def run(per_type, seed, with_lean=True):
     g = Gen(schema, rng)
     h = Harness("miniwasm")
     d = Driver() if with_lean else None
-    stats = {"types": 0, "evaluations": 0, "nonempty": 0, "distinct": set(), "samples": [], "lean_wire_roundtrips": 0,
+    stats = {"types": 0, "evaluations": 0, "nonempty": 0, "distinct": set(), "samples": [], "lean_wire_roundtrips": 0, "lean_nested_roundtrips": 0, "lean_nested_fields": 0, "lean_nested_skipped": 0,
              "any_checks": 0}
     divs = []
     try:
         n_reg = h.call({"op": "proto", "fn": "count"})["ok"]
+        names = schema.get("names") or []
+        name_idx = {n: i for i, n in enumerate(names)} if isinstance(names, list) else dict(names)
         compiled = sorted(k for k, m in schema["messages"].items() if m.get("compiled", True))
         stats["registry_types"] = n_reg
         for k in compiled:
@@ -203,6 +205,18 @@ def run(per_type, seed, with_lean=True):
                     if lr.get("ok") != hx:
                         divs.append({"kind": "lean-wire-codec", "type": k, "hex": hx, "lean": lr})
                         break
+                # the typed, nested Lean codec (the function `msg_roundtrip` is about) against the regenerated
+                # schema: must return the same bytes as prost for every message whose nested types are in the table
+                if d is not None and i < 4 and k in name_idx:
+                    nr = d.call({"op": "nested_roundtrip", "type": name_idx[k], "hex": hx})
+                    if "ok" in nr:
+                        stats["lean_nested_roundtrips"] += 1
+                        stats["lean_nested_fields"] += nr.get("fields", 0)
+                        if nr["ok"] != hx:
+                            divs.append({"kind": "lean-nested-codec", "type": k, "hex": hx, "lean": nr})
+                            break
+                    else:
+                        stats["lean_nested_skipped"] += 1      # refers to a type outside the table (prost_types::*)
                 if len(stats["samples"]) < 3 and len(b) > 20:
                     stats["samples"].append({"type": k, "hex": hx[:200]})
         # search for a failing input that does not depend on the translator: bytes that are canonical
